@@ -81,6 +81,7 @@ class DavSession:
         self.last_etag = {}    # (c, n) -> current etag string
         self.seen_etags = {}   # (c, n) -> [etag strings seen earlier]
         self.locked = set()
+        self.acked_live = set()      # (slot, name): the server acknowledged creating / writing it, no delete since
         self.acked_deleted = set()   # (slot, name): the server acknowledged its deletion, nothing re-created it
         self.explicit = {}     # (slot, neutral property) -> value id set by an acknowledged instruction
         self.coll_etag = {}    # slot -> the collection's own getetag (string) as last observed
@@ -257,10 +258,14 @@ class DavSession:
             return
         if ev["op"] == "Delete":
             self.acked_deleted.add((ev["c"], ev["n"]))
+            self.acked_live.discard((ev["c"], ev["n"]))
         elif ev["op"] in ("Put", "Post"):
             self.acked_deleted.discard((ev["c"], ev.get("n", "")))
+            if ev.get("n"):
+                self.acked_live.add((ev["c"], ev["n"]))
         elif ev["op"] in ("Mk", "DeleteColl"):
             self.acked_deleted = {k for k in self.acked_deleted if k[0] != ev["c"]}
+            self.acked_live = {k for k in self.acked_live if k[0] != ev["c"]}
 
     def put(self, c, n, data, ct=None, im=None, inm=None, valid=None, re=False, fault=0, chunked=False,
             external=False, segmented=False, byname=False):
@@ -285,6 +290,7 @@ class DavSession:
         resp = self._request("PUT", path, hdrs, data, fault, external=external)
         ev = {"op": "Put", "c": c, "n": n, "b": b, "im": imr, "inm": inmr, "re": bool(re),
               "gone": self._holders_gone(c, n, b),
+              "acklive": (c, n) in self.acked_live,
               "fault": fault if self._fault_fired else 0, "ext": bool(external),
               "fgate": getattr(self, "_fault_gate", "") if self._fault_fired else ""}
         return self._record(ev, resp, {"m": "PUT", "path": path, "headers": hdrs,
